@@ -176,6 +176,10 @@ def render(n, out):
             # a suffix modifier directly after a bracket group: { x }!  [ x ]+
             render(k, out)
             out[-1] = out[-1] + mod
+        elif n["mode"] != "once" and k["op"] == "cap" and (k["kid"]["op"] in ("lit", "ref", "prod", "union", "user") or (k["kid"]["op"] == "grp" and k["kid"]["mode"] == "once")):
+            # a modifier applied directly to a capture: @Ident*  @@?  @( A B )+   (= group{mode, capture{...}})
+            render(k, out)
+            out[-1] = out[-1] + mod
         elif n["mode"] == "once" or needs_paren(k) or k["op"] in ("grp", "neg", "look", "cap"):
             out.append("("); render(k, out); out.append(")" + mod)
         else:
@@ -188,6 +192,8 @@ def render(n, out):
             out.append("@")
         elif k["op"] in ("lit", "ref"):
             render(k, out)
+        elif k["op"] == "neg" and k["kid"]["op"] in ("lit", "ref"):
+            render(k, out)                     # @~";"
         elif k["op"] == "grp" and k["mode"] in ("opt", "star"):
             # a capture applied directly to an optional / repeated group: the bracket forms @[ x ] and @{ x }
             out.append("[" if k["mode"] == "opt" else "{")
